@@ -102,6 +102,7 @@ pub mod errors {
 // ---- opaque configuration types held by MinidumpWriter / PtraceDumper ----
 pub struct AuxvDumpInfo { pub x: u8 }
 pub struct DirectAuxvDumpInfo { pub x: u8 }
+#[derive(Clone, Copy)]
 pub struct Duration { pub x: u8 }
 
 /// crate::linux::crash_context::CrashContext: wraps crash_context::CrashContext (libc ucontext_t,
